@@ -1017,8 +1017,11 @@ def run_C20(ctx):
         corpus.append({"t": "verdict", "prog": x["prog"], "extra": x["extra"]})
         spec.append("accept" if x["accept"] else "reject")
     # programs and inputs on the interpreter and the JIT
-    recs = exec_cases(ctx, "exec", ["alu", "jmp", "mem", "ctx", "far"], 96 if ctx.quick else 8, timeout=1500,
-                      devs={f["key"] for f in core.load_known()["findings"] if "interpreter" in f["where"]})
+    idevs = {f["key"] for f in core.load_known()["findings"] if "interpreter" in f["where"]}
+    recs = exec_cases(ctx, "exec", ["alu", "jmp", "mem", "far"], 96 if ctx.quick else 8, timeout=1500, devs=idevs)
+    # what each VM kind presents at entry (r1, packet pointers, packet loads): densely - this is where
+    # the two builds' JIT set-up code differs (caller-supplied executable memory, flags per VM kind)
+    recs += exec_cases(ctx, "exec-ctx", ["ctx"], 5 if ctx.quick else 1, timeout=1500, devs=idevs)
     key_of = lambda c: json.dumps([c["fam"], c["id"], c["vm"]])
     # cases on which a recorded interpreter finding changes the interpreter's answer: both builds
     # must still agree there, but the specification's answer is not demanded (that is C01's finding)
